@@ -224,6 +224,18 @@ func runC10(r *core.Run) {
 			r.Fail("destroy-before-durable", "rotate.Key", "%s: DestroyKeyVersion(%q) was called before the certificate authority's Finalize returned success (fault: %s)", cfg, d.Name, firstSite)
 		}
 	}
+	// The outage may outlast the rotation: a signing request reaches the long-lived authority while
+	// the store still refuses calls. The request may fail; once the store is back, health is judged
+	// as always.
+	if a.Persist && fired > 0 && !crashed && r.Chance(40, "outage-outlasts-rotation?") {
+		plan.SitePrefix, plan.SiteLeft = "disk.", 1+r.Intn(2, "outage-calls")
+		plan.Active = true
+		during := a.CheckHealth(a.Now)
+		plan.Active = false
+		r.Eventf("signing request during the outage: healthy=%v (refusals left %d)", during.Healthy(), plan.SiteLeft)
+		plan.SitePrefix, plan.SiteLeft = "", 0
+		r.Probe("signing-request-during-outage")
+	}
 	// (1)-(3) health as a fresh process sees it.
 	c10Health(r, a, cfg, "after the faulted rotation", firstSite, "")
 	// (5) bounded liveness once faults stop: one fault-free rotation allowed to overwrite.
